@@ -124,7 +124,8 @@ CHECKS = {
          'plain documents (C06) and documents with undeclared control words, '
          'comments, braces and nested pass-through macros are conserved end '
          'to end through the main loop of the expander '
-         '(C03_words_stay_markup_vanishes). Not a theorem: '
+         '(C03_words_stay_markup_vanishes); text between paired LT-SKIP marks '
+         'never reaches the expander, everything outside does, in order. Not a theorem: '
          'what each macro / environment / the maths parser keeps or hides; '
          'decided by the marker-word oracle and the differential run',
     ref='6/C03, 11.2', technique='Coq proof (conservation lemmas) + '
@@ -212,8 +213,11 @@ CHECKS = {
     text='partial. Theorems for every body and argument list: the '
          'replacement is the body with #n replaced by the n-th argument, in '
          'order; argument tokens unchanged, other tokens pinned inside the '
-         'use; an undeclared name is not expanded. Not a theorem: parsing of '
-         'definition commands and actual arguments, independence of the '
+         'use; an undeclared name is not expanded; a macro with n mandatory '
+         'arguments called with n braced groups collects exactly the groups, '
+         'in order, and expands to the body with #k replaced by the k-th '
+         'group, state untouched. Not a theorem: parsing of '
+         'definition commands, optional and unbraced arguments, independence of the '
          'source of the definitions; decided by the definition-set generator '
          '(own TeX substitution semantics), route comparison and the '
          'differential run',
